@@ -28,7 +28,7 @@ ASSUMPTIONS = [
     "numpy casts double -> float16/float32 round to nearest even with overflow to infinity (the model computes this exactly; compared on every case)",
 ]
 TRUSTED = ["numpy tobytes/frombuffer/astype as the implementation's encoder, struct as the harness-side cross-check"]
-NOT_THEOREMS = ['IEEE narrowing is nearest-even (model computes it exactly; all float16 patterns and halfway cases compared every run)', 'literal / date bytes round trip']
+NOT_THEOREMS = ['per-field binary law BinLaw for float fields (decodeFloat(encodeFloat x) = roundTo x: bit-field inverse of the IEEE formats; all float16 patterns and halfway cases compared every run), for non-ASCII literals and for dates: hypothesis of Props.C09.line_main, per case; proved for integers, ASCII literals and missing values']
 EXHAUSTIVE = {"quick": True, "thorough": True}
 
 import sys
